@@ -48,6 +48,22 @@ CLAIMS["C03"] = (
     "properties are analysed through their base classes only.",
     "DESIGN.md §4 C03")
 
+CLAIMS["C16"] = (
+    "writer/reader table agreement per concrete class through the MRO, path rule over the HDF5 dictionary writer, keyword/attribute "
+    "agreement and deep-copy wrapping for every __copy__/__deepcopy__, option liveness and by-name forwarding for csv/pandas wrappers, "
+    "record-loop lockstep for VCF import (ast)",
+    "Decides the structural half of the round-trip property: for 59 concrete classes the key set written by to_hdf5 equals the key set "
+    "read by from_hdf5 (resolved through super() delegation), every value is the same-named attribute, string fields use the utf-8 reader, "
+    "every read reaches the same-named constructor keyword/attribute and every stored constructor parameter is persisted; every path through "
+    "h5py_File_write_dict replaces, deletes or recurses for each key (so the file equals the last object written); all 50 copy methods pass "
+    "every constructor parameter and all group metadata from the same-named attribute and __deepcopy__ deep-copies every mutable field; "
+    "csv wrappers forward every option by name and no IO option is dead; VCF import appends CHROM/POS/ID/calls in lockstep and takes calls as "
+    "genotypes[:,0:2] transposed to (phase,taxa,variant). Value equality through h5py/pandas/cyvcf2 is trusted, not decided.",
+    "Trusted: h5py / pandas / cyvcf2 semantics, utf-8 encoding of object arrays. The pandas column-name agreement between to_pandas and "
+    "from_pandas is only covered through option liveness/forwarding. Known findings: G_E_Phenotyping deep copy shares rng; "
+    "DenseBreedingValueMatrix.from_pandas ignores location/scale; DenseScaledSquareTaxaTraitMatrix copies drop group metadata.",
+    "DESIGN.md §4 C16")
+
 NOT_YET = "rule set not built yet (build in progress; see DESIGN.md §8)"
 NA = {}
 
